@@ -60,7 +60,10 @@ ok, err = build()
 assert ok, err
 rc0, out0 = run_demo()
 res['without'] = {'rc': rc0, 'out': out0[-600:]}
-ap_ = subprocess.run(['git', 'apply', os.path.join(os.path.abspath(a.dir), 'patch.diff')], cwd=WT, capture_output=True, text=True)
+_pf = os.path.join(os.path.abspath(a.dir), 'patch.rebased.diff')
+if not os.path.exists(_pf):
+    _pf = os.path.join(os.path.abspath(a.dir), 'patch.diff')
+ap_ = subprocess.run(['git', 'apply', _pf], cwd=WT, capture_output=True, text=True)
 res['applies'] = ap_.returncode == 0
 if not res['applies']:
     res['apply_err'] = ap_.stderr
